@@ -857,17 +857,21 @@ Definition run_callback (oi : nat) (e : ent) : MW unit :=
 (** Generic dispatch: aggregate early-out, then the per-observer predicate over a snapshot
     of the event's observer list (RemoveObserver builds a new list, so the running loop
     keeps iterating the old one). Returns whether any observer fired. *)
-Definition fire (evt : nat) (early : agg -> bool) (pred : oobj -> bool) (e : ent) (early_out : bool) : MW bool :=
+Fixpoint fire_loop (cb : nat -> ent -> MW unit) (pred : oobj -> bool) (e : ent) (l : list nat) (found : bool) : MW bool :=
+  match l with
+  | [] => ret found
+  | oi :: rest =>
+      o <- getO oi ;;
+      if pred o then cb oi e ;;; fire_loop cb pred e rest true else fire_loop cb pred e rest found
+  end.
+
+Definition fire_with (cb : nat -> ent -> MW unit) (evt : nat) (early : agg -> bool) (pred : oobj -> bool)
+           (e : ent) (early_out : bool) : MW bool :=
   s <- get ;;
   if (early_out && early (get_agg s evt))%bool then ret false
-  else
-    (fix go (l : list nat) (found : bool) : MW bool :=
-       match l with
-       | [] => ret found
-       | oi :: rest =>
-           o <- getO oi ;;
-           if pred o then run_callback oi e ;;; go rest true else go rest found
-       end) (olist s evt) false.
+  else fire_loop cb pred e (olist s evt) false.
+
+Definition fire := fire_with run_callback.
 
 Definition p_with (m : mask) (o : oobj) : bool :=
   (negb (o_haswith o && negb (mk_contains m (o_with o))) &&
